@@ -607,6 +607,22 @@ class C18:
                                  sig='C18.crop:value'))
                 return
         exp = self._expected_crop(ev, src)
+        if exp is not None and cmap:
+            # a crop that fits is centred where it was asked to be (whatever
+            # the rounding convention for odd sizes: within half a pixel)
+            cen = [int(np.round(v)) for v in ev['args']['center']]
+            for ax, name in ((0, 'x'), (1, 'y')):
+                sc_ = [float(v) for v in src['coords'][name]['values']]
+                got = sorted({pt[ax] for pt in cmap})
+                a = sc_.index(got[0])
+                b_ = sc_.index(got[-1]) + 1
+                if abs((a + b_) / 2.0 - cen[ax]) > 0.5:
+                    ex.add(violation(
+                        'C18.crop', ev['id'],
+                        'crop of %s-pixels [%d, %d) is not centred at the '
+                        'requested pixel %d' % (name, a, b_, cen[ax]),
+                        sig='C18.crop:centre'))
+                    return
         if exp is not None:
             want = (exp[0][1] - exp[0][0]) * (exp[1][1] - exp[1][0])
             if len(cmap) != want:
